@@ -914,6 +914,7 @@ class Element(object):
                     children = value
                     value = ElementList(self)
                 old_children = self.__dict__.get('children')
+                last_child_index = self.__dict__.get('_last_child_index')
                 super(Element, self).__setattr__(name, value)
                 try:
                     for c in children:
@@ -925,6 +926,8 @@ class Element(object):
                             if not any(c is old for old in old_children.list):  # the previous children stay attached
                                 c._parent = None
                         super(Element, self).__setattr__(name, old_children)
+                        if last_child_index is not None:  # open-ended segments count the fields they hold
+                            self._last_child_index = last_child_index
                     raise
             else:
                 super(Element, self).__setattr__(name, value)
